@@ -20,6 +20,8 @@ def seeds_table():
     rows = ["| seeded change | property | what it changes (short) | needs | result of the registered check | failing obligation(s) / how caught |", "|---|---|---|---|---|---|"]
     for d in sorted(glob.glob(os.path.join(V, "seeded", "*", "meta.json"))):
         m = json.load(open(d)); sid = os.path.basename(os.path.dirname(d))
+        if m.get("benign"):
+            continue
         det = m.get("detected_by", {}).get(m["property"])
         if det is None:
             other = [(k, v) for k, v in m.get("detected_by", {}).items() if v.get("exit") == 1]
@@ -35,12 +37,20 @@ def seeds_table():
                 how = ", ".join("`%s`" % o.split("::", 1)[1] for o in (det.get("failed_obligations") or [])[:3]) or "bounded replay / stand-in on the real code"
             elif det["exit"] == 0:
                 res = "**missed**" + (" (proof lost, bounded fallback passed)" if "PROOF-LOST" in lines else "")
-                how = m.get("note_after_fix_561dd08", "")[:160] or "see §7 notes"
+                how = (m.get("note_after_fix_561dd08") or m.get("note_after_fix_ba92ea8") or "")[:160] or "see §7 notes"
             else:
                 res, how = "undecided (exit 2)", lines[:120]
         short = re.sub(r"\s+", " ", m["summary"])[:150]
         needs = re.sub(r"\s+", " ", m["needs_to_manifest"])[:110]
         rows.append("| %s | %s | %s | %s | %s | %s |" % (sid, m["property"], short.replace("|", "/"), needs.replace("|", "/"), res, how.replace("|", "/")))
+    return "\n".join(rows)
+
+def benign_table():
+    rows = ["| refactoring | kind | touched | result per check (must never be VIOLATION) |", "|---|---|---|---|"]
+    for d in sorted(glob.glob(os.path.join(V, "seeded", "benign-*", "meta.json"))):
+        m = json.load(open(d)); sid = os.path.basename(os.path.dirname(d))
+        res = ", ".join("%s: %s" % (p, "VIOLATION (false alarm)" if v["exit"] == 1 else ("proof kept" if v["lines"] and v["lines"][0].startswith("OK") else "proof lost, bounded fallback passes" if v["exit"] == 0 else "undecided")) for p, v in sorted(m.get("checks", {}).items()))
+        rows.append("| %s | %s | %s | %s |" % (sid, re.sub(r"\s+", " ", m.get("kind", ""))[:110].replace("|", "/"), ", ".join("`%s`" % os.path.basename(f) for f in m.get("touched", [])), res))
     return "\n".join(rows)
 
 def evidence_table():
@@ -55,7 +65,7 @@ def evidence_table():
                     sum(u["verus_wall_s"] for u in c["units"].values()), st))
     return "\n".join(rows)
 
-TABLES = {"units": units_table, "seeds": seeds_table, "evidence": evidence_table}
+TABLES = {"units": units_table, "seeds": seeds_table, "evidence": evidence_table, "benign": benign_table}
 if __name__ == "__main__":
     p = os.path.join(V, "DESIGN.md")
     s = open(p).read()
